@@ -222,6 +222,7 @@ def comb_prelude(tracking, base='_b0'):
 #define T_NONE (-1)
 int g_turn; size_t g_pos; int g_done; size_t g_iter; int g_last;   /* g_last: index of the sub-rule called last */
 int g_called[NR]; int g_ok[NR]; size_t g_len[NR]; size_t g_ncalls[NR];
+size_t g_cur;   /* cursor offset after the last sub-rule call (for the native stub playback of counterexamples) */
 int g_ae[NR]; int g_re[NR]; size_t g_lp[NR];   /* C11: sub-rule i was called at the combinator's entry position / called again at the position of its previous call / position of its last call */
 int g_c[NR];   /* C11 premise: g_c[i] != 0 means "sub-rule i consumes whenever it succeeds" (unconstrained, never assigned) */
 unsigned long g_exc_obj; int g_exc_type;
@@ -289,7 +290,7 @@ def rule_stub(spec, param='in'):
             c.add(R('AT_ENTRY(%s)' % param, 'stub-at-entry-iterator', ('C01', 'C02')))
         for extra in s.get('requires', []):
             c.add(extra)
-        c.add(A('IT_FIELDS(%s), g_turn, g_pos, g_done, g_iter, g_last, g_called[%d], g_ok[%d], g_len[%d], g_ncalls[%d], g_ae[%d], g_re[%d], g_lp[%d], vf_exc, vf_exc_counter, g_exc_obj, g_exc_type' % (param, i, i, i, i, i, i, i)))
+        c.add(A('IT_FIELDS(%s), g_turn, g_pos, g_done, g_iter, g_last, g_called[%d], g_ok[%d], g_len[%d], g_ncalls[%d], g_ae[%d], g_re[%d], g_lp[%d], g_cur, vf_exc, vf_exc_counter, g_exc_obj, g_exc_type' % (param, i, i, i, i, i, i, i)))
         c.add(E('CUR_IN_WINDOW(%s)' % param, 'stub'))    # first: when assumed it (re)builds the cursor; the clauses below then constrain it
         c.add(E('BOOL01(RET) && BOOL01(g_ok[%d]) && BOOL01(vf_exc.pending) && BOOL01(g_done)' % i, 'stub'))
         c.add(E('PTRS_OK(%s) && CNT_POS(%s) && IN_END(%s)==OLD(IN_END(%s)) && IN_BEGIN(%s)==OLD(IN_BEGIN(%s))' % ((param,) * 6), 'stub'))
@@ -312,6 +313,7 @@ def rule_stub(spec, param='in'):
         if m == 0:
             c.add(E('(!vf_exc.pending && !g_ok[%d]) ==> ITER_UNCHANGED(%s)' % (i, param), 'stub'))
         c.add(E('(!vf_exc.pending && g_ok[%d] && g_c[%d]) ==> g_len[%d] > 0' % (i, i, i), 'stub'))
+        c.add(E('g_cur == OFF(CUR(%s))' % param, 'stub'))
         c.add(E('g_ae[%d] == (OLD(g_ae[%d]) || OLD(g_pos) == g_e_off) && g_re[%d] == (OLD(g_re[%d]) || (OLD(g_ncalls[%d]) > 0 && OLD(g_pos) == OLD(g_lp[%d]))) && g_lp[%d] == OLD(g_pos)'
                 % ((i,) * 7), 'stub'))
         return c
@@ -326,7 +328,7 @@ def comb_requires(param='in'):
 
 
 def comb_assigns(param='in'):
-    return A('IT_FIELDS(%s), g_turn, g_pos, g_done, g_iter, g_last, g_called, g_ok, g_len, g_ncalls, g_ae, g_re, g_lp, vf_exc, vf_exc_counter, g_exc_obj, g_exc_type' % param)
+    return A('IT_FIELDS(%s), g_turn, g_pos, g_done, g_iter, g_last, g_called, g_ok, g_len, g_ncalls, g_ae, g_re, g_lp, g_cur, vf_exc, vf_exc_counter, g_exc_obj, g_exc_type' % param)
 
 
 def comb_common(m, param='in', props_rewind=('C02',), exc_props=('C05',)):
